@@ -64,14 +64,17 @@ PROPS = {
                 'The DFS writer and the scanner are serialiser/scanner code outside the accepted subset (DESIGN §6 C07).', _T_EXT),
     'C08': _hyb('C08', 'format_bonding == fold of (order symbol + [descriptor]) over the list, every descriptor in order',
                 'read_fragments(write_cgsmiles_fragments(F)) isomorphic to F incl. descriptors; complete strings written from resolver inputs resolve to the same molecule.', _T_EXT),
-    'C09': _bnd('C09', 'independent valence table + hydrogen attribute inheritance on every all-atom resolver output of the C01/C10 generators plus polymers, grafts, charged and aromatic units.',
-                'valence filling happens inside pysmiles (trusted).', _T_EXT),
-    'C10': _hyb('C10', 'the compatibility relation used for the shared-atom pairs (compatible)',
+    'C09': _hyb('C09', 'rebuild_h_atoms: atoms that were there keep membership, fragment name and weight (explicitly written hydrogens keep their own '
+                'annotations, zero included) and every completed hydrogen carries those of an atom it is bonded to (pysmiles valence filling assumed)',
+                'independent valence table + hydrogen attribute inheritance on every all-atom resolver output of the C01/C10 generators plus polymers, grafts, charged and aromatic units, weight-0 annotations, hydrogen-first orders.', _T_EXT),
+    'C10': _hyb('C10', 'squash_atoms: every merge is between two atoms that still exist and differ (networkx.contracted_nodes assumed), no atom that was not merged '
+                'away is lost, the merged atom\'s membership is the concatenation of both; and the compatibility relation (compatible)',
                 'resolve(overlapping) isomorphic to resolve(disjoint), one atom fewer per shared pair, membership of merged atoms, over G2 with any subset of cuts shared.', _T_EXT),
     'C11': _hyb('C11', 'edges_from_bonding_descrpt (range(order): no bond for order 0; the fragment graph of a virtual node is never read), '
                 'resolve_disconnected_molecule (membership = coarse node key whatever precedes it; virtual node skipped iff all its edges are order 0, else SyntaxError) and merge_graphs',
                 'inserting virtual nodes / zero-order edges anywhere leaves the fine molecule and every other coarse node mapping unchanged; fragment-less node with order >= 1 raises.', _T_EXT),
-    'C12': _hyb('C12', 'merge_graphs frame: the template graph is never modified, copied attributes are deep copies (frame obligations), keys consecutive',
+    'C12': _hyb('C12', 'merge_graphs frame: the template graph is never modified, copied attributes are deep copies (frame obligations), keys consecutive; '
+                'set_atom_names_atomistic: within every coarse node the i-th atom is named element + i, only atomname is written',
                 'canonical dump equality across calls, fragment-definition permutations, the three constructors, shared dictionaries and PYTHONHASHSEED values (subprocesses).', _T_EXT),
     'C13': _bnd('C13', 'strip_bonding_descriptors(text) == expectation known by construction over G3 (<= 2 insertions quick, <= 3 thorough).',
                 'The tokenizer is a character state machine over a peekable iterator, outside the accepted subset.', _T_EXT),
